@@ -36,3 +36,32 @@ package bmnumbers
 //@   assigns nothing
 //@   loop 1: invariant digits: isbin(result) && len(result) == 8 * $i
 //@   loop 2: invariant strip: isbin(result) && len(result) <= pre(len(result))
+
+// ---- importers: the stored pattern has the stated width ------------------------------------------------------------
+
+// the byte string holds exactly the declared number of bits, rounded up to whole bytes
+//@ pred storedWidth(n *BMNumber) := n != nil && ((n.bits == 0 && len(n.number) <= 1) || (n.bits >= 1 && 8 * len(n.number) >= n.bits && 8 * len(n.number) < n.bits + 8))
+
+//@ func binImportNoSize(re *regexp.Regexp, input string) (*BMNumber, error)
+//@   ensures stored: result1 == nil ==> storedWidth(result)
+//@   loop 1: invariant consumed: 0 <= i && len(binNum) <= pre(len(binNum)) && (len(binNum) > 0 ==> len(binNum) + 8 * i == pre(len(binNum)))
+
+//@ func binImportWithSize(re *regexp.Regexp, input string) (*BMNumber, error)
+//@   ensures stored: result1 == nil ==> storedWidth(result)
+//@   loop 1: invariant consumed: 0 <= i && len(binNum) <= pre(len(binNum)) && (len(binNum) > 0 ==> len(binNum) + 8 * i == pre(len(binNum))) &&
+//@             (len(binNum) == 0 ==> 8 * i >= pre(len(binNum)))
+//@   loop 1: invariant room: pre(len(binNum)) <= binSize && 8 * len(newNumber.number) >= binSize && ((binSize == 0 && len(newNumber.number) <= 1) || (binSize >= 1 && 8 * len(newNumber.number) < binSize + 8)) &&
+//@             i <= len(newNumber.number)
+
+//@ func hexImportNoSize(re *regexp.Regexp, input string) (*BMNumber, error)
+//@   ensures stored: result1 == nil ==> result != nil && len(result.number) * 8 == result.bits
+
+// (the declared width of a sized hex literal is a multiple of 8)
+//@ func hexImportWithSize(re *regexp.Regexp, input string) (*BMNumber, error)
+//@   ensures stored: result1 == nil ==> result != nil && len(result.number) * 8 == result.bits
+
+//@ func unsignedImportNoSize(re *regexp.Regexp, input string) (*BMNumber, error)
+//@   ensures stored: result1 == nil ==> storedWidth(result) && result.bits == 64
+
+//@ func unsignedImportWithSize(re *regexp.Regexp, input string) (*BMNumber, error)
+//@   ensures stored: result1 == nil ==> storedWidth(result) && result.bits <= 64
